@@ -178,14 +178,23 @@ CHECKS_K1 = {
                 "timer is armed at subscription and re-armed by every element (the new timer replaces and cancels the pending one, "
                 "event order compared); source notifications are mirrored while not switched; the timer of generation k fires the "
                 "switch iff no notification arrived since it was armed: the subscriber itself is handed to the fallback source and "
-                "the source's subscription is released; after the source terminated nothing switches.",
+                "the source's subscription is released; after the source terminated nothing switches (terminated-state invariant + "
+                "ghost invariant of the timer families). take_last_with_time_ / skip_last_with_time_: the queue of time-stamped "
+                "records is a symbolic sequence of records; the pruning loop and the flush loop are cut at loop invariants over three "
+                "recursive functions of the queue (aged prefix, rest after the aged prefix, all young values) whose defining equations "
+                "are instantiated on the ground terms; the boundary rule (young: age < d, not younger: age >= d) is stated once, in those "
+                "functions, and every handler must agree with it. K8 lemmas by structural induction connect them with the property's "
+                "words: what an arrival prunes can never be young later (the rule does not depend on unrelated arrivals), in a "
+                "time-ordered queue the aged prefix is ALL the not-younger elements, prefix and rest partition the queue, and a step "
+                "of the spec machines keeps the queue time-ordered.",
         "note": _K1_NOTE + " A-time / A-time-step as in C16; absolute times are tagged integers (isinstance(x, datetime) is true exactly "
                 "for them). A source element AT the boundary instant is processed by whichever of the two events the scheduler runs "
-                "first - both orders are covered since every step starts from an arbitrary state. NOT proved (no contract yet), decided "
-                "by the bounded native run only and listed under drifted_to_bounded / bounded_standins: take_last_with_time, "
-                "skip_last_with_time (queues of time-stamped records drained by loops), timeout without a fallback (= fallback "
-                "throw(...), C37), timeout_with_mapper.",
-        "technique": "K1 handler refinement in virtual time with timer families (K1-T), SMT; bounded native stand-in for the operators without a contract",
+                "first - both orders are covered since every step starts from an arbitrary state. Pending-set assumption used for "
+                "timeout after a switch: the timer that switched was the newest one, older ones having been cancelled when replaced "
+                "(SerialDisposable C26; a cancelled item never runs C28/C30). Induction schema of the K8 lemmas is instantiated by the "
+                "generator, not checked by the solver. NOT under contract: timeout_with_mapper; timeout without a fallback is timeout "
+                "with fallback throw(...) (C37).",
+        "technique": "K1 handler refinement in virtual time with timer families and loop invariants over recursive sequence functions (K1-T), K8 lemmas by induction, SMT",
     },
     "C22": {
         "text": "Function contracts with loop invariants on the real ReplaySubject, the retained queue viewed as a SEQUENCE of (time, "
